@@ -115,6 +115,12 @@ R01.7 the destination import path comes from modfile.ModulePath of the nearest g
 	accessorTableGuard(c, "R01.9")
 	// identifiers produced through template functions: exported/firstUpper/firstIsLower work on runes
 	// (a byte-wise version turns a non-ASCII first letter into invalid UTF-8, i.e. an invalid identifier)
+	// one import registry per output file (C06 rule R06.6): a registry shared between files carries the imports
+	// of the files rendered before into the next one ("imported and not used" under gofmt/noop)
+	subRules(c, "R01.5", "registry-per-file", "the import block of a file is the registry's content: ", func(sub *Ctx) {
+		sub.Rule("R06.6", 0, "")
+		ruleFreshGenerator(sub, loadRepo(sub, packages.LoadSyntax, "", "./internal/cmd", "./internal"), "R06.6")
+	})
 	c.Rule("R01.10", 1, "")
 	subRules(c, "R01.10", "identifier-functions", "the built-in templates build field and constructor names with these functions: ", func(sub *Ctx) {
 		ruleRunes(sub, loadRepo(sub, packages.LoadSyntax, "", "./template_funcs"))
@@ -297,6 +303,7 @@ func goR011(c *Ctx, r *Repo) {
 	}
 	c.Func(funcKey(tp, fd))
 	self := info.Defs[fd.Name]
+	goR011Total(c, r, tp, fd)
 	// the universe of type constructors: named types of go/types whose pointer implements types.Type
 	gt := r.Pkgs["go/types"]
 	if gt == nil || gt.Types == nil {
@@ -624,6 +631,7 @@ func nodeString(n ast.Node) string {
 // ---------------- R01.5: in-package decision ----------------
 
 func goR015(c *Ctx, r *Repo, rule string) {
+	goSrcPkgQualifier(c, r, rule)
 	ip := r.Pkg("internal")
 	info := ip.TypesInfo
 	fd := FuncDecl(ip, "NewTemplateGenerator")
@@ -1202,4 +1210,137 @@ func goR017Search(c *Ctx, r *Repo) {
 		}
 	}
 	c.Check(nFound > 0 && nUp > 0 && nRoot > 0, "R01.7", "findPkgPath|search|cases", r.Pos(loop.Pos()), "found / ascend / root cases all present", fmt.Sprintf("the go.mod search lacks one of its cases (found %d, ascend %d, root %d)", nFound, nUp, nRoot))
+}
+
+// goSrcPkgQualifier (added after the mechanical-mutation sweep): the data handed to the template carries
+// SrcPkgQualifier = "<source package name>." exactly when the mock is not generated into the source package
+// (engine T's accessor table assumes it: the matryer ensure line and custom templates qualify the source
+// interface with it). Every store to the field in Generate's family sits under the single test "not in
+// package" and stores the registry's source package name followed by a dot.
+func goSrcPkgQualifier(c *Ctx, r *Repo, rule string) {
+	ip := r.Pkg("internal")
+	gen := FuncDecl(ip, "TemplateGenerator.Generate")
+	if gen == nil {
+		return // reported by the rules anchored in Generate
+	}
+	n := 0
+	for _, g := range familyOf(ip, gen) {
+		fc := newFuncCanonG(ip, g)
+		var stack []ast.Node
+		ast.Inspect(g.Body, func(x ast.Node) bool {
+			if x == nil {
+				stack = stack[:len(stack)-1]
+				return true
+			}
+			stack = append(stack, x)
+			as, ok := x.(*ast.AssignStmt)
+			if !ok || len(as.Lhs) != 1 || len(as.Rhs) != 1 {
+				return true
+			}
+			se, ok := ast.Unparen(as.Lhs[0]).(*ast.SelectorExpr)
+			if !ok || se.Sel.Name != "SrcPkgQualifier" {
+				return true
+			}
+			n++
+			val := fc.E(as.Rhs[0])
+			okVal := strings.HasSuffix(val, `.SrcPkgName<(template.Registry).SrcPkgName>() + "."`) || strings.HasSuffix(val, `.srcPkgName + "."`)
+			c.Check(okVal, rule, "Generate|src-pkg-qualifier|value", r.Pos(as.Pos()), "the qualifier is the source package's name and a dot", "SrcPkgQualifier is set to "+val+`, documented: the source package's name followed by "."`)
+			var conds []string
+			for i := len(stack) - 2; i >= 0; i-- {
+				is, ok := stack[i].(*ast.IfStmt)
+				if !ok {
+					continue
+				}
+				child := stack[i+1]
+				if child == ast.Node(is.Body) {
+					conds = append(conds, fc.E(is.Cond))
+				} else if child == is.Else {
+					conds = append(conds, "!("+fc.E(is.Cond)+")")
+				}
+			}
+			okCond := len(conds) == 1 && (conds[0] == "!RECV.inPackage" || conds[0] == "!(RECV.inPackage)" || conds[0] == "RECV.inPackage == false")
+			c.Check(okCond, rule, "Generate|src-pkg-qualifier|condition", r.Pos(as.Pos()), "set exactly when the mock is outside the source package", fmt.Sprintf("SrcPkgQualifier is set under %v; documented: exactly when the mock is not generated into the source package (!inPackage)", conds))
+			return true
+		})
+	}
+	c.Check(n == 1, rule, "Generate|src-pkg-qualifier|sites", r.Pos(gen.Pos()), "one store", fmt.Sprintf("%d stores to SrcPkgQualifier in Generate's family, expected exactly one", n))
+}
+
+// goR011Total (round 6: an "already recorded for this variable" early return in the named-type helper skipped
+// the walk of the type arguments): the walk is total. In populateImportsHelper and the functions of the package
+// that recurse into it, nothing leaves early (no return, break, continue or goto outside function literals),
+// and a recursive call is conditional only on the nil-ness of the container it is about to index.
+func goR011Total(c *Ctx, r *Repo, tp *packages.Package, fd *ast.FuncDecl) {
+	info := tp.TypesInfo
+	self := info.Defs[fd.Name]
+	var fam []*ast.FuncDecl
+	for _, g := range withCallees(tp, fd) {
+		rec := g == fd
+		ast.Inspect(g.Body, func(n ast.Node) bool {
+			if call, ok := n.(*ast.CallExpr); ok && calleeFunc(info, call) == self {
+				rec = true
+			}
+			return true
+		})
+		if rec {
+			fam = append(fam, g)
+		}
+	}
+	for _, g := range fam {
+		fc := newFuncCanonG(tp, g)
+		var stack []ast.Node
+		ast.Inspect(g.Body, func(n ast.Node) bool {
+			if n == nil {
+				stack = stack[:len(stack)-1]
+				return true
+			}
+			stack = append(stack, n)
+			inLit := false
+			for _, a := range stack {
+				if _, ok := a.(*ast.FuncLit); ok {
+					inLit = true
+				}
+			}
+			switch x := n.(type) {
+			case *ast.ReturnStmt:
+				if !inLit && !(len(stack) == 2 && g.Body.List[len(g.Body.List)-1] == ast.Stmt(x)) {
+					c.Fail("R01.1", "walk-total|"+g.Name.Name+"|early-exit", r.Pos(x.Pos()), g.Name.Name+" returns before the walk of the type's components is complete: the packages of the components that follow are never registered")
+				}
+			case *ast.BranchStmt:
+				if !inLit && (x.Tok == token.CONTINUE || x.Tok == token.GOTO || x.Tok == token.BREAK) {
+					// a break that only leaves a switch clause is harmless
+					leavesLoop := x.Tok != token.BREAK
+					if x.Tok == token.BREAK {
+						for i := len(stack) - 2; i >= 0; i-- {
+							switch stack[i].(type) {
+							case *ast.SwitchStmt, *ast.TypeSwitchStmt, *ast.SelectStmt:
+								i = -1
+							case *ast.ForStmt, *ast.RangeStmt:
+								leavesLoop = true
+								i = -1
+							}
+						}
+					}
+					if leavesLoop {
+						c.Fail("R01.1", "walk-total|"+g.Name.Name+"|early-exit", r.Pos(x.Pos()), g.Name.Name+" skips or leaves a loop over a type's components ("+x.Tok.String()+"): the packages of the skipped components are never registered")
+					}
+				}
+			case *ast.CallExpr:
+				if calleeFunc(info, x) != self {
+					return true
+				}
+				for i := len(stack) - 2; i >= 0; i-- {
+					is, ok := stack[i].(*ast.IfStmt)
+					if !ok || stack[i+1] == is.Init || stack[i+1] == ast.Node(is.Cond) {
+						continue
+					}
+					cond := fc.E(is.Cond)
+					okCond := stack[i+1] == ast.Node(is.Body) && strings.HasSuffix(cond, " != nil") && !strings.Contains(cond, "&&") && !strings.Contains(cond, "||")
+					c.Check(okCond, "R01.1", "walk-total|"+g.Name.Name+"|conditional-recursion", r.Pos(is.Pos()), "recursion guarded only by the nil-ness of a container", fmt.Sprintf("%s recurses into a component only under the condition %q: for the other types the component's packages are never registered", g.Name.Name, cond))
+				}
+			}
+			return true
+		})
+	}
+	c.Check(len(fam) >= 1, "R01.1", "walk-total|family", r.Pos(fd.Pos()), "import walk functions examined", "no import walk function found")
 }
